@@ -38,7 +38,7 @@ Proof.
   - rewrite !wf_struct_cons. cbn [wf fsize fvalid]. rewrite Nat.eqb_refl, Hb, Hwf. reflexivity.
 Qed.
 
-(* initialising: for every enum-free shape whose fixed-size parts accept the all-zero pattern, the default initializer
+(* initialising: for every shape (an enum default-initialises its #[default_init] variant) whose fixed-size parts accept the all-zero pattern, the default initializer
    writes exactly the canonical encoding of the default value (zero bytes, empty lists), of exactly the announced size;
    deserializing what it wrote gives that value back *)
 Theorem C05_init_default_exact :
